@@ -207,7 +207,7 @@ def stage_tests(args):
             out.append(m)
             if k % 20 == 0:
                 print(k, m["file"], m["tests"], m["desc"][:100], flush=True)
-    json.dump(out, open(args.out, "w"), indent=0)
+    json.dump([{k: v for k, v in m.items() if k != "source"} for m in out], open(args.out, "w"), indent=0)
     surv = [m for m in out if m["tests"] == "pass"]
     print(f"{len(surv)} of {len(out)} mutants pass the repository's own tests")
 
@@ -217,6 +217,9 @@ def stage_checks(args):
     surv = [m for m in muts if m.get("tests") == "pass" and (not args.files or m["file"] in args.files.split(",")) and "caught_by" not in m]
 
     def run(m):
+        if "source" not in m:  # the committed file keeps descriptions only: regenerate the mutant from its site index
+            tree = ast.parse(open(os.path.join(REPO, m["rel"])).read())
+            m = dict(m, source=ast.unparse(mutate(tree, m["index"])[1]))
         d = scratch_with(m["rel"], m["source"])
         m["caught_by"], m["inconclusive"] = None, []
         try:
